@@ -211,7 +211,8 @@ def replay(path):
 MANIFEST = dict(
     category="proof",
     technique="Lean 4 theorems about the representation model (call-tree replay through the declaration model) + exact text "
-              "correspondence + eval(repr(s)) search on the real code",
+              "correspondence + eval(repr(s)) search on the real code"
+              " + representor translator (print programs extracted from the source)",
     text="Props/C06.lean: replaying the calls printed for a scalar schema through the declaration model rebuilds exactly "
          "the schema (repr_scalar_roundtrip) and the printed tokens are exactly those calls (reprScalar_eq_calls), hence "
          "the same text again (repr_scalar_stable); pattern and len are never both printed (pattern_excludes_len); "
@@ -220,7 +221,8 @@ MANIFEST = dict(
          "any sequence of declaration calls, at any nesting depth (lists of a type / of elements with ... markers and len, "
          "dicts with optional keys and ...: ... at its position, unions), rebuild_same_repr. Tie: the model's token stream "
          "with CPython-rendered literals equals the real repr at indents 0/4/3; search: eval(repr(s)) == s and prints the "
-         "same, on the real code.",
+         "same, on the real code."
+         " Translator: the scalar Representor.visit_* methods are extracted as print programs (Gen/ReprProg.lean); reprScalar_eq_extracted proves the hand model prints exactly what they say for every scalar schema. Source pins: the normalised text of every anchor file is compared with the text the model was last validated against; a changed file is a broken obligation (no-failing-input-found unless the search finds an input).",
     note="Partial: finite floats (inf/nan literals are not evaluable, K6 family); an empty union cannot be built or "
          "printed (rebuild_roundtrip_counterexample: schema.any() is a TypeError). Trusted: Lean kernel + standard axioms, "
          "CPython's parser and literal repr, hand model (sampling tie), codec.")
